@@ -56,12 +56,18 @@ def oae_ifs(ctx, f):
     return c08.raise_ifs(ctx, f, OAE)
 
 
-def conj(test):
+def conj(test, f=None, depth=0):
+    """Conjuncts of a test; a local boolean bound once to a conjunction or
+    comparison is replaced by its definition when f is given."""
     if isinstance(test, ast.BoolOp) and isinstance(test.op, ast.And):
         out = []
         for v in test.values:
-            out.extend(conj(v))
+            out.extend(conj(v, f, depth))
         return out
+    if f is not None and isinstance(test, ast.Name) and depth < 3:
+        d = c05.single_def(f, test.id)
+        if d is not None and isinstance(d.value, (ast.BoolOp, ast.Compare)):
+            return conj(d.value, f, depth + 1)
     return [test]
 
 
@@ -222,7 +228,7 @@ def run(ctx, R):
                        '%s.parent_id!=%s.id' % (mine, parent),
                        'notallow_reparenting'])
         g_gate = [x for x in guards if sorted(
-            src(c).replace(' ', '') for c in conj(x.test)) == want]
+            src(c).replace(' ', '') for c in conj(x.test, u)) == want]
         for s in re_p + re_r:
             lab = src(s.targets[0])
             R.ob('R9.1', 'update:unknown-parent-rejected@%s' % lab,
